@@ -1,0 +1,86 @@
+//go:build verif
+
+// Contracts for prog.go Dump/Load and the stream side of encoding.go
+// (see /verif/DESIGN.md section 7: C09, C13, C14). Comment-only file.
+
+package bcl
+
+//@ group C09,C13,C14
+//
+//@ func uvarintLen
+//@   ensures [C14,C13] length_from_first_byte: result == uvneed(b0)
+//@   modifies nothing
+//
+// wrappers over the verified dependency
+//@ func uvarintToBytes
+//@   requires fits: len(p) >= uvlen(x)
+//@   ensures length: result == uvlen(x)
+//@   ensures bytes: forall i int :: 0 <= i && i < uvlen(x) ==> p[i] == uvbyte(x, i)
+//@   ensures rest_unchanged: forall i int :: uvlen(x) <= i && i < len(p) ==> p[i] == old(p[i])
+//@   modifies p[0..uvlen(x))
+//
+// reads one varint from the stream: complete or an error, never a panic
+//@ func uvarintFromBuf
+//@   requires reader: r != nil
+//@   ensures [C13] complete_or_error: result1 == nil ==> old(g.rlen - g.rp) >= 1 && old(g.rlen - g.rp) >= uvneed(rbyte(old(g.rp)))
+//@   ensures [C09,C14] value: result1 == nil ==> result0 == uvstream(old(g.rp)) && g.rp == old(g.rp) + uvneed(rbyte(old(g.rp)))
+//@   ensures [C13] no_new_short_read: result1 == nil ==> g.short == old(g.short)
+//@   ensures position: g.rp >= old(g.rp)
+//
+//@ func sizeFromBuf
+//@   requires reader: r != nil
+//@   ensures [C13] complete_or_error: result1 == nil ==> old(g.rlen - g.rp) >= 1 && old(g.rlen - g.rp) >= uvneed(rbyte(old(g.rp)))
+//@   ensures [C09,C14] value: result1 == nil ==> result0 == uvstream(old(g.rp)) && g.rp == old(g.rp) + uvneed(rbyte(old(g.rp))) && result0 <= 2147483647
+//@   ensures [C13] no_new_short_read: result1 == nil ==> g.short == old(g.short)
+//@   ensures position: g.rp >= old(g.rp)
+//
+// typed values: the encoder against the documented layout
+//@ func valueToBytes
+//@   requires storable_kind: storable(v)
+//@   requires [C09] buffer_fits: len(p) >= vlen(v)
+//@   ensures [C09,C14] length: result == vlen(v)
+//@   ensures [C09,C14] layout: forall i int :: 0 <= i && i < vlen(v) ==> p[i] == vbyte(v, i)
+//@   modifies p[0..vlen(v))
+//
+// typed values: the decoder (complete payload or an error; value per documented layout)
+//@ func valueFromBuf
+//@   requires reader: r != nil
+//@   ensures [C13] no_new_short_read: result1 == nil ==> g.short == old(g.short)
+//@   ensures [C09,C14] int_value: (result1 == nil && rbyte(old(g.rp)) == byte(typeINT)) ==> result0 == VInt(int(u64toi64(uvstream(old(g.rp) + 1)))) && g.rp == old(g.rp) + 1 + uvneed(rbyte(old(g.rp) + 1))
+//@   ensures [C09,C14] float_value: (result1 == nil && rbyte(old(g.rp)) == byte(typeFLOAT)) ==> result0 == VFloat(ffrombits(be8(rbyte(old(g.rp)+1), rbyte(old(g.rp)+2), rbyte(old(g.rp)+3), rbyte(old(g.rp)+4), rbyte(old(g.rp)+5), rbyte(old(g.rp)+6), rbyte(old(g.rp)+7), rbyte(old(g.rp)+8)))) && g.rp == old(g.rp) + 9
+//@   ensures [C09,C14] string_value: (result1 == nil && rbyte(old(g.rp)) == byte(typeSTR)) ==> is_str(result0) && uint64(len(as_str(result0))) == uvstream(old(g.rp) + 1) && g.rp == old(g.rp) + 1 + uvneed(rbyte(old(g.rp) + 1)) + len(as_str(result0)) && (forall i int :: 0 <= i && i < len(as_str(result0)) ==> as_str(result0)[i] == rbyte(old(g.rp) + 1 + uvneed(rbyte(old(g.rp) + 1)) + i))
+//@   ensures [C09,C14] bool_value: (result1 == nil && rbyte(old(g.rp)) == byte(typeBOOL)) ==> result0 == VBool(rbyte(old(g.rp) + 1) != 0) && g.rp == old(g.rp) + 2
+//@   ensures [C09,C14] nil_value: (result1 == nil && rbyte(old(g.rp)) == byte(typeNIL)) ==> result0 == VNil() && g.rp == old(g.rp) + 1
+//@   ensures [C13,C14] known_type_or_error: result1 == nil ==> rbyte(old(g.rp)) <= byte(typeBOOL)
+//@   ensures position: g.rp >= old(g.rp)
+//
+// Dump: every section is written in the documented order with the documented
+// encoding, and every scratch buffer is large enough (call-site assertions).
+//@ func (*Prog).Dump
+//@   requires complete: prog.linePos != nil
+//@   requires storable_constants: forall i int :: 0 <= i && i < len(prog.constants) ==> storable(prog.constants[i])
+//@   requires nonneg_positions: (forall i int :: 0 <= i && i < len(prog.positions) ==> prog.positions[i] >= 0) && (forall i int :: 0 <= i && i < len(prog.linePos.lfs) ==> prog.linePos.lfs[i] >= 0)
+//@   assert [C14] header: at Write#1: len($p) == 4 && $p[0] == 252 && $p[1] == 108 && $p[2] == 1 && $p[3] == 1
+//@   assert [C14] name_length: at Write#2: len($p) == uvlen(uint64(len(prog.name))) && (forall i int :: 0 <= i && i < len($p) ==> $p[i] == uvbyte(uint64(len(prog.name)), i))
+//@   assert [C14] name_bytes: at Write#3: len($p) == len(prog.name) && (forall i int :: 0 <= i && i < len($p) ==> $p[i] == prog.name[i])
+//@   assert [C14] code_length: at Write#4: len($p) == uvlen(uint64(len(prog.code))) && (forall i int :: 0 <= i && i < len($p) ==> $p[i] == uvbyte(uint64(len(prog.code)), i))
+//@   assert [C14] code_bytes: at Write#5: $p == prog.code
+//@   assert [C14] constants_count: at Write#6: len($p) == uvlen(uint64(len(prog.constants))) && (forall i int :: 0 <= i && i < len($p) ==> $p[i] == uvbyte(uint64(len(prog.constants)), i))
+//@   assert [C14,C09] constant_value: at Write#7: len($p) == vlen(v) && (forall i int :: 0 <= i && i < len($p) ==> $p[i] == vbyte(v, i))
+//@   assert [C14] positions_count: at Write#8: len($p) == uvlen(uint64(len(prog.positions))) && (forall i int :: 0 <= i && i < len($p) ==> $p[i] == uvbyte(uint64(len(prog.positions)), i))
+//@   assert [C14] position_value: at Write#9: len($p) == uvlen(uint64(x)) && (forall i int :: 0 <= i && i < len($p) ==> $p[i] == uvbyte(uint64(x), i))
+//@   assert [C14] lfs_count: at Write#10: len($p) == uvlen(uint64(len(prog.linePos.lfs))) && (forall i int :: 0 <= i && i < len($p) ==> $p[i] == uvbyte(uint64(len(prog.linePos.lfs)), i))
+//@   assert [C14] lfs_value: at Write#11: len($p) == uvlen(uint64(x)) && (forall i int :: 0 <= i && i < len($p) ==> $p[i] == uvbyte(uint64(x), i))
+//@   loop 1 invariant consts: 0 - 1 <= rangeindex && len(p) >= 96 && prog.linePos != nil
+//@   loop 2 invariant poss: 0 - 1 <= rangeindex && len(p) >= 96 && prog.linePos != nil
+//@   loop 3 invariant lfss: 0 - 1 <= rangeindex && len(p) >= 96 && prog.linePos != nil
+//
+// Load: never panics, and succeeds only if no read came up short; the header is checked
+//@ func (*Prog).Load
+//@   requires fresh_stream: g.rp == 0 && !g.short && g.rlen >= 0
+//@   ensures [C13] no_short_read_when_ok: err == nil ==> !g.short
+//@   ensures [C13,C14] header_checked: err == nil ==> g.rlen >= 4 && rbyte(0) == 252 && rbyte(1) == 108 && rbyte(2) == 1 && rbyte(3) <= 1
+//@   ensures [C09] complete_program: err == nil ==> prog.linePos != nil
+//@   loop 1 invariant 0 <= i && !g.short && g.rp >= 4 && int(m) == len(prog.constants) && m <= 2147483647
+//@   loop 2 invariant 0 <= i && !g.short && g.rp >= 4 && int(m) == len(prog.positions) && m <= 2147483647
+//@   loop 3 invariant 0 <= i && !g.short && g.rp >= 4 && prog.linePos != nil && int(m) == len(prog.linePos.lfs) && m <= 2147483647
